@@ -73,6 +73,23 @@ theorem toolchain_path_confined (root id : Bytes) (hv : validId id = true) :
 /-- the ids of the round-0 finding are refused now: empty, one byte, `../../x`, `/abs` -/
 theorem bad_ids_refused : validId [] = false ∧ validId [97] = false ∧ validId [46, 46, 47, 46, 46, 47, 120] = false ∧ validId [47, 97, 98] = false := by decide
 
+/-- `overlay_dir_confined` (fix aa1c43e): for **every** client-supplied toolchain id, a directory the overlay builder creates for
+    it is exactly `<builder>/toolchains/<id>`; ids the toolchain cache refuses get none -/
+theorem overlay_dir_confined (builder id : Bytes) (c : Bool) (p : Bytes) (h : overlayDir builder id c = some p) :
+    resolve p = resolve builder ++ [tcDirName, id] := PathsM.overlayDir_confined builder id c p h
+
+theorem overlay_dir_bad_ids_refused (builder : Bytes) (c : Bool) :
+    overlayDir builder [46, 46, 47, 46, 46, 47, 120] c = none ∧ overlayDir builder [47, 116, 109, 112, 47, 120] c = none ∧
+    overlayDir builder [] c = none := PathsM.overlayDir_refuses_bad_ids builder c
+
+/-- F-C19-c fixed witness: what the unrepaired code did with `../../x` and `/tmp/x` -/
+theorem overlay_dir_escape_witness_before :
+    confined [47, 98, 47, 100] (overlayDirBefore [47, 98, 47, 100] [46, 46, 47, 46, 46, 47, 120]) = false ∧
+    confined [47, 98, 47, 100] (overlayDirBefore [47, 98, 47, 100] [47, 116, 109, 112, 47, 120]) = false := PathsM.overlayDirBefore_escape_witness
+
+/-- non-vacuity: a digest-like id in the cache gets its directory -/
+example : overlayDir [47, 98, 47, 100] [48, 97, 102, 57] true = some ([47, 98, 47, 100] ++ [47] ++ tcDirName ++ [47] ++ [48, 97, 102, 57]) := by decide
+
 /-- non-vacuity: a digest-like id is accepted -/
 example : validId [48, 97, 102, 57] = true := by decide
 
